@@ -97,7 +97,7 @@ func streamPreds(seed uint64, n int, driver string, tier string) (*Summary, erro
 	if n > 20000 {
 		maxLen = 3
 	}
-	sum.Rule = fmt.Sprintf("every built-in test: strings exhaustive up to length %d over an 18-symbol alphabet containing the ASCII range edges (/ 0 9 : @ A Z [ ` a z {) and 2/3/4-byte runes (for UUID and Email also a valid subject with every position replaced by every ASCII byte and by runes that case / width folding relates to ASCII: ſ K ı İ µ ß Å ａ Ａ ０ ...), x parameters (lengths 0..4, prefixes/substrings from the alphabet, OneOf sets); numbers at parameter-1/parameter/parameter+1 incl. NaN, +-0, +-Inf; times equal in different zones, and a 12 x 12 grid of bounds x values on both sides of the int64-nanosecond range (years 1 .. 9999); slices of length 0..4; plus %d random; non-trivial = every case (each decides one predicate on one subject); distinct = distinct case line", maxLen, n)
+	sum.Rule = fmt.Sprintf("every built-in test: strings exhaustive up to length %d over an 18-symbol alphabet containing the ASCII range edges (/ 0 9 : @ A Z [ ` a z {) and 2/3/4-byte runes (for UUID and Email also a valid subject with every position replaced by every ASCII byte and by runes that case / width folding relates to ASCII: ſ K ı İ µ ß Å ａ Ａ ０ ...), and, for the character-class tests, every 2-byte rune and the 3- / 4-byte runes whose low byte sits on an edge of an ASCII class), x parameters (lengths 0..4, prefixes/substrings from the alphabet, OneOf sets); numbers at parameter-1/parameter/parameter+1 incl. NaN, +-0, +-Inf; times equal in different zones, and a 12 x 12 grid of bounds x values on both sides of the int64-nanosecond range (years 1 .. 9999); slices of length 0..4; plus %d random; non-trivial = every case (each decides one predicate on one subject); distinct = distinct case line", maxLen, n)
 	r := rng.New(seed)
 	type pc struct {
 		kind, elem string
@@ -156,6 +156,34 @@ func streamPreds(seed uint64, n int, driver string, tier string) (*Summary, erro
 	for _, t := range strTests {
 		for _, s := range subjects {
 			cases = append(cases, pc{"str", "", t, eng.D{K: "s", S: s}})
+		}
+	}
+	// the character-class tests decide on CODE POINTS: every 2-byte rune, and the 3- / 4-byte runes whose low
+	// byte sits on an edge of an ASCII class (U+0141 has the low byte of 'A', U+0130 that of '0', U+0121 that of '!')
+	{
+		var runes []rune
+		for r := rune(0x80); r < 0x800; r++ {
+			runes = append(runes, r)
+		}
+		edges := []rune{0x20, 0x21, 0x2F, 0x30, 0x39, 0x3A, 0x40, 0x41, 0x5A, 0x5B, 0x60, 0x61, 0x7A, 0x7B, 0x7E, 0x7F}
+		for hi := rune(0x08); hi <= 0xFF; hi++ {
+			if hi >= 0xD8 && hi <= 0xDF {
+				continue // surrogates are not characters
+			}
+			for _, lo := range edges {
+				runes = append(runes, hi<<8|lo)
+			}
+		}
+		for _, lo := range edges {
+			runes = append(runes, 0x1F600|lo, 0x10000|lo)
+		}
+		for _, t := range strTests {
+			if t.Name != "upper" && t.Name != "digit" && t.Name != "special" {
+				continue
+			}
+			for _, r := range runes {
+				cases = append(cases, pc{"str", "", t, eng.D{K: "s", S: "a" + string(r) + "b"}})
+			}
 		}
 	}
 	// UUID / Email: a valid subject with every position replaced by every ASCII byte (control bytes included)
